@@ -375,6 +375,14 @@ func (c *SimConn) Read(p []byte) (int, error) {
 		}
 	}
 	c.inBytes += done
+	if done > 0 && c.pendingLen() == 0 && c.step >= len(c.cc.Steps) && !c.cc.NoEOF && c.fault("eof-with-data", -1) != nil {
+		// the peer's last bytes and its end of stream arrive in one Read
+		// (n > 0 together with io.EOF: legal for any io.Reader)
+		c.eof = true
+		c.FaultFired["eof-with-data"]++
+		c.rec("read", "eof-with-data")
+		return int(done), io.EOF
+	}
 	return int(done), nil
 }
 
@@ -423,6 +431,15 @@ func (c *SimConn) Write(p []byte) (int, error) {
 		c.FaultFired["write-err"]++
 		c.rec("write", fmt.Sprintf("fault accepted=%d of %d", j, len(p)))
 		return j, errSimBroken
+	}
+	if f := c.fault("write-cancel", idx); f != nil && c.ID >= 0 && c.ID < len(c.rt.Conns) {
+		// the session's context ends while this write is under way (a session
+		// time limit that expires while the peer is slow to take the data)
+		if cs := c.rt.Conns[c.ID]; cs.cancelSession != nil {
+			c.FaultFired["write-cancel"]++
+			c.rec("write", "session context cancelled")
+			cs.cancelSession()
+		}
 	}
 	if f := c.fault("write-stall", idx); f != nil && c.rt.K.enabled {
 		// a stalled peer: it stops reading, the server's write never completes
@@ -517,8 +534,14 @@ func (c *SimConn) Close() error {
 	return nil
 }
 
-func (c *SimConn) LocalAddr() net.Addr                { return SimAddr{-1} }
-func (c *SimConn) RemoteAddr() net.Addr               { return SimAddr{c.ID} }
+func (c *SimConn) LocalAddr() net.Addr { return SimAddr{-1} }
+func (c *SimConn) RemoteAddr() net.Addr {
+	// (the first thing the connection's own goroutine does with its connection:
+	// under the scheduler it becomes this connection's task here, so that what
+	// it does before its first read can be interleaved with Close callers)
+	c.rt.K.StartTask(c.task, "conn.start")
+	return SimAddr{c.ID}
+}
 func (c *SimConn) SetDeadline(t time.Time) error      { c.Deadlines++; c.rdl, c.wdl = t, t; return nil }
 func (c *SimConn) SetReadDeadline(t time.Time) error  { c.Deadlines++; c.rdl = t; return nil }
 func (c *SimConn) SetWriteDeadline(t time.Time) error { c.Deadlines++; c.wdl = t; return nil }
